@@ -840,6 +840,17 @@ def directed_programs():
             for tn, t in tsts[:3]:
                 th, el = then_else(24)
                 mk('H_%s_%s_%s' % (mn, dn, tn), [asg(dst, V('b')), mid, ('if', t(dst), th, el)])
+    # K. the comma operator: a sequence point between its operands (pending ++/-- of the left one are done
+    #    before the right one is evaluated), as a statement and in the header of a for loop
+    C2 = lambda a_, b_: ('bin', ',', a_, b_)
+    mk('K_for_upd', [('for', C2(('asg', '=', V('i'), N(0)), ('asg', '=', V('j'), N(0))), ('bin', '<', V('i'), N(3)),
+                      C2(('inc', 'x++', V('i')), ('asg', '=', V('j'), V('i'))), ('block', [('expr', ('asg', '+=', V('c'), V('j')))]))])
+    mk('K_for_upd2', [('for', ('asg', '=', V('i'), N(0)), ('bin', '!=', V('i'), N(3)),
+                       C2(('inc', 'x++', V('i')), ('asg', '=', ('idx', 'arr', V('i')), V('i'))), ('block', [('expr', ('inc', 'x++', V('c')))]))])
+    for n_, (l_, r_) in enumerate([(('inc', 'x++', V('i')), ('asg', '=', V('j'), V('i'))), (('inc', 'x--', V('i')), ('asg', '=', V('j'), V('i'))),
+                                   (('inc', 'x++', V('X')), ('asg', '=', ('idx', 'arr', V('X')), N(7))), (('inc', 'x++', V('a')), ('asg', '+=', V('b'), V('a'))),
+                                   (('asg', '=', V('a'), ('inc', 'x++', V('b'))), ('asg', '=', V('c'), V('b'))), (('inc', 'x++', V('s')), ('asg', '=', V('t'), V('s')))]):
+        mk('K_stmt_%d' % n_, [asg(V('X'), N(2)), ('expr', C2(l_, r_))])
     # F. ++/-- of a 16-bit variable as an operand
     for iname in ('++x', '--x', 'x++', 'x--'):
         inc = ('inc', iname, V('s'))
